@@ -172,3 +172,120 @@ Definition utils_callf (fn : string) (vs : list gval) (ks : list (string * gval)
     match vs, ks with [VArr x; VArr lk; VBoolV fill], [] => let? r := find_higher x lk fill in Ok (VIdxArr r) | _, _ => Raise TypeError end
   else Raise OtherExn
   end.
+
+(** ---------- rfa.py: the rfa() methods ---------- *)
+Section RfaLeaves.
+Variable pw : Qc -> Qc.        (* t |-> t ** exp *)
+Variable gpow : Qc -> Qc.      (* g |-> g ** adaptive_smooth *)
+Variable sf : Qc -> Qc.        (* the sampling function a FunctionRFA was given *)
+Variables (sx sy : list Qc) (sn : nat).     (* self.x, self.y, self.n *)
+
+Definition ext_of (lx ly : list Qc) (n : Z) : ext :=
+  {| xe := lx; ye := ly; en := n; nfull := Z.of_nat (length lx / Z.to_nat n) |}.
+
+Definition pt (v : gval) : option (Qc * Qc) :=
+  match v with VTup [a; b] => match as_num a, as_num b with Some p, Some q => Some (p, q) | _, _ => None end | _ => None end.
+
+Definition rfa_callf (fn : string) (vs : list gval) (ks : list (string * gval)) : res gval :=
+  if seq_eqb fn "IntervalArray" then
+    match vs, ks with [VArr l; VInt n], [] => Ok (ivl l n) | _, _ => Raise TypeError end
+  else if seq_eqb fn ".extend_linspace!" then
+    match vs, ks with
+    | [VClos "ivl" [VArr l; VInt n]], [("direction", VStrV "both")] => Ok (ivl (extend_linspace l (Z.to_nat n) Both None None) n)
+    | _, _ => Raise TypeError
+    end
+  else if seq_eqb fn ".extend_constant!" then
+    match vs, ks with
+    | [VClos "ivl" [VArr l; VInt n]], [("direction", VStrV "both")] => Ok (ivl (extend_constant l (Z.to_nat n) Both) n)
+    | _, _ => Raise TypeError
+    end
+  else if seq_eqb fn "np.array" then
+    match vs, ks with
+    | [VArr l], [("copy", VBoolV true)] => Ok (VArr l)
+    | [VTup l], [("dtype", VOpaque "float")] => match nums_of l with Some q => Ok (VArr q) | None => Raise TypeError end
+    | _, _ => Raise TypeError
+    end
+  else if seq_eqb fn "lin_fit" then
+    match vs, ks with
+    | [x; p0; p1], [] =>
+        match as_num x, pt p0, pt p1 with
+        | Some x, Some (x0, y0), Some (x1, y1) => Ok (VNum (lin_fit x x0 y0 x1 y1))
+        | _, _, _ => Raise TypeError
+        end
+    | _, _ => Raise TypeError
+    end
+  else if seq_eqb fn "lin_exp_xy_fit" then
+    match vs, ks with
+    | [x; p0; p1], [("alpha", VOpaque "exp")] =>
+        match as_num x, pt p0, pt p1 with
+        | Some x, Some (x0, y0), Some (x1, y1) => Ok (VNum (lin_exp_xy_fit pw x x0 y0 x1 y1))
+        | _, _, _ => Raise TypeError
+        end
+    | _, _ => Raise TypeError
+    end
+  else if seq_eqb fn "exp_lin_fit" then
+    match vs, ks with
+    | [x; p0; p1], [("alpha", VOpaque "exp")] =>
+        match as_num x, pt p0, pt p1 with
+        | Some x, Some (x0, y0), Some (x1, y1) => Ok (VNum (exp_lin_fit pw x x0 y0 x1 y1))
+        | _, _, _ => Raise TypeError
+        end
+    | _, _ => Raise TypeError
+    end
+  else if seq_eqb fn "oversample_linspace" then
+    match vs, ks with
+    | [VArr a], [("num", VInt n)] => Ok (VArr (oversample_linspace a (Z.to_nat n)))
+    | _, _ => Raise TypeError
+    end
+  else if seq_eqb fn "oversample_piecewise_constant" then
+    match vs, ks with
+    | [VArr a], [("num", VInt n)] => Ok (VArr (oversample_pc a (Z.to_nat n)))
+    | _, _ => Raise TypeError
+    end
+  else if seq_eqb fn "int" then
+    match vs, ks with [v], [] => match as_num v with Some q => Ok (VInt (Qc_trunc q)) | None => Raise TypeError end | _, _ => Raise TypeError end
+  else if seq_eqb fn "function" then
+    match vs, ks with [v], [] => match as_num v with Some q => Ok (VNum (sf q)) | None => Raise TypeError end | _, _ => Raise TypeError end
+  else Raise OtherExn.
+
+Definition adaptive_points (vs : list gval) : res gval :=
+  match vs with
+  | [VClos "ivl" [VArr lx; VInt n]; VClos "ivl" [VArr ly; VInt n']; VInt a; VOpaque "adaptive_smooth"] =>
+      if (n =? n')%Z then
+        let w := adaptive_windows gpow (ext_of lx ly n) a in
+        Ok (VTup [VIdxArr (fst w); VIdxArr (snd w); VOpaque "gammas"])
+      else Raise TypeError
+  | _ => Raise TypeError
+  end.
+
+Definition rfa_methf (r : gval) (m : string) (vs : list gval) : res gval :=
+  match r with
+  | VOpaque "self" =>
+      if seq_eqb m "_initial_oversample" then
+        match vs with [] => Ok (VTup [VArr (oversample_linspace sx sn); VArr (oversample_pc sy sn)]) | _ => Raise TypeError end
+      else if seq_eqb m "_initial_x_oversample" then
+        match vs with [] => Ok (VArr (oversample_linspace sx sn)) | _ => Raise TypeError end
+      else if seq_eqb m "_initial_y_oversample" then
+        match vs with [] => Ok (VArr (oversample_pc sy sn)) | _ => Raise TypeError end
+      else if seq_eqb m "_get_sampling_function" then
+        match vs with [] => Ok (VOpaque "function") | _ => Raise TypeError end
+      else if seq_eqb m "get_adaptive_transition_points" then adaptive_points vs
+      else Raise AttributeError
+  | VOpaque "LinearAdaptiveRFA" =>
+      if seq_eqb m "get_adaptive_transition_points" then adaptive_points vs else Raise AttributeError
+  | VClos "ivl" [VArr l; VInt n] =>
+      match vs with
+      | [] => if seq_eqb m "nr_of_full_intervals" then Ok (VInt (Z.of_nat (length l / Z.to_nat n)))
+              else if seq_eqb m ".array" then Ok (VArr l)
+              else Raise AttributeError
+      | _ => Raise AttributeError
+      end
+  | _ => array_methf r m vs
+  end.
+
+(** the attributes the constructors store (window sizes as computed by the constructor kernels, Gen/Kernels.v) *)
+Definition rfa_attrs (a a_l b : Z) (beta : Qc) : list (string * gval) :=
+  [("self.x", VArr sx); ("self.y", VArr sy); ("self.n", VInt (Z.of_nat sn));
+   ("self.a", VInt a); ("self.a_l", VInt a_l); ("self.a_r", VInt a_l); ("self.b", VInt b);
+   ("self.beta", VNum beta); ("self.exp", VOpaque "exp"); ("self.adaptive_smooth", VOpaque "adaptive_smooth")].
+End RfaLeaves.
